@@ -45,7 +45,7 @@ def gen_solver(rng, name, steps, dt, tight=None, buggify=True, contacts=False):
     if name == "DualStormerVerlet":
         spec["kwargs"] = {
             "linear_solver": str(rng.choice(["LU", "MINRES", "MINRES (matrix free)"])) if buggify else "LU",
-            "accelerated": bool(rng.random() < 0.7) if buggify else True,
+            "accelerated": bool(rng.random() < 0.5) if buggify else True,
         }
         if spec["kwargs"]["linear_solver"] != "LU" and spec["options"].get("fixed_point_atol", 1e-6) < 1e-8:
             # MINRES' own default tolerance cannot deliver 1e-9 fixed points
